@@ -145,6 +145,21 @@ func pureKey(v ssa.Value, res func(ssa.Value) ssa.Value, d int) string {
 		if x.Op == token.NOT || x.Op == token.SUB || x.Op == token.XOR {
 			return x.Op.String() + pureKey(x.X, res, d+1)
 		}
+		if x.Op == token.MUL {
+			// load from a private local written exactly once: a pure function of the stored value
+			switch a := x.X.(type) {
+			case *ssa.Alloc:
+				if sv := privateSingleStore(a); sv != nil {
+					return pureKey(sv, res, d+1)
+				}
+			case *ssa.FieldAddr:
+				if al, ok := a.X.(*ssa.Alloc); ok {
+					if sv := privateSingleStore(al); sv != nil {
+						return pureKey(sv, res, d+1) + ".f" + fmt.Sprint(a.Field)
+					}
+				}
+			}
+		}
 	case *ssa.ChangeType:
 		return pureKey(x.X, res, d)
 	case *ssa.MakeInterface:
@@ -167,6 +182,34 @@ func pureKey(v ssa.Value, res func(ssa.Value) ssa.Value, d int) string {
 		}
 	}
 	return "%" + v.Name()
+}
+
+// privateSingleStore: the local cell is written exactly once (as a whole), is
+// not captured by a closure and its address does not escape; returns the
+// stored value.
+func privateSingleStore(cell *ssa.Alloc) ssa.Value {
+	sv := singleStore(cell)
+	if sv == nil {
+		return nil
+	}
+	for _, r := range nonDebugRefs(cell) {
+		switch u := r.(type) {
+		case *ssa.Store:
+			if u.Addr != ssa.Value(cell) {
+				return nil
+			}
+		case *ssa.UnOp:
+		case *ssa.FieldAddr:
+			for _, r2 := range nonDebugRefs(u) {
+				if _, ok := r2.(*ssa.UnOp); !ok {
+					return nil
+				}
+			}
+		default:
+			return nil
+		}
+	}
+	return sv
 }
 
 func neverNil(v ssa.Value) bool {
@@ -329,6 +372,20 @@ func (p *Prog) EnumPaths(fn *ssa.Function, opts PathOpts) ([]*Path, int, error) 
 						walk(b.Succs[1], b, e)
 					}
 					return
+				}
+				if bo, ok := cv.(*ssa.BinOp); ok && (bo.Op == token.EQL || bo.Op == token.NEQ) {
+					cx, okx := res(bo.X).(*ssa.Const)
+					cy, oky := res(bo.Y).(*ssa.Const)
+					if okx && oky && cx.Value != nil && cy.Value != nil {
+						eq := cx.Value.ExactString() == cy.Value.ExactString()
+						if (bo.Op == token.EQL) == eq {
+							walk(b.Succs[0], b, e)
+						} else {
+							walk(b.Succs[1], b, e)
+						}
+						pruned++
+						return
+					}
 				}
 				at := p.atomOf(cv, res, e)
 				at.If = x
